@@ -67,12 +67,6 @@ Theorem C04_source_x32_guard_is_the_model : forall k ai d,
 Proof. intros k ai d. repeat split. Qed.
 Print Assumptions C04_source_x32_guard_is_the_model.
 
-(** Program.Ret / returnValue in the source: EPERM is or-ed into ActionErrno, every other action is returned verbatim *)
-Theorem C04_source_return_value :
-  return_value_body = "{ if action == ActionErrno { action |= Action(errnoEPERM) } return uint32(action) }"%string.
-Proof. reflexivity. Qed.
-Print Assumptions C04_source_return_value.
-
 Theorem C04_nonvacuous :
   run_event true ex_prog (ev_of 0 1073741827 0) = ORet 327681 /\
   run_event true ex_prog (ev_of (1073741824 + 0) 3221225534 0) = ORet (327680 + 38) /\
